@@ -9,6 +9,10 @@ PRIMS = {"usize", "isize", "u8", "u16", "u32", "u64", "u128", "i8", "i16", "i32"
          "f32", "f64", "str", "String"}
 # external constructors -> (id, rule)
 EXT = {}
+ROOT_TRAITS = {"Future", "Stream", "ConcurrentStream", "Consumer", "IntoFuture", "IntoStream",
+               "IntoConcurrentStream", "FusedFuture", "FusedStream"}
+
+
 def ext(names, rule):
     for n in names:
         EXT[n] = (10000 + len(EXT), rule)
@@ -32,6 +36,7 @@ def common_prefix(a, b):
 
 class Gen:
     def __init__(self, data):
+        self.data = data
         self.decls = data["decls"]
         self.by_name = {}
         for i, d in enumerate(self.decls):
@@ -125,6 +130,13 @@ class Gen:
         lines.append("]")
         names = ", ".join(json.dumps("::".join(d["path"] + [d["name"]])) for d in self.decls)
         lines.append(f"def names_{tag} : List String := [{names}]")
+        # the types the property is about: those the crate hands out as futures / streams / concurrent
+        # streams / consumers (everything else matters only as a field of one of these, and is then
+        # reached through it)
+        produced = {ti["self"] for ti in self.data.get("trait_impls", []) if ti["trait"] in ROOT_TRAITS}
+        self.roots = [i for i, d in enumerate(self.decls) if d["name"] in produced]
+        lines.append(f"/-- indices of the declarations that implement one of {sorted(ROOT_TRAITS)} -/")
+        lines.append(f"def roots_{tag} : List Nat := [{', '.join(str(i) for i in self.roots)}]")
         return "\n".join(lines)
 
 
@@ -176,7 +188,8 @@ end Fc
     open(out, "w").write(txt)
     rep = {"assoc": gs.assoc, "unknown": gs.unknown, "ambiguous": gs.ambiguous + ga.ambiguous,
            "opaque": gs.opaque + ga.opaque, "impls": std["impls"] + alloc["impls"],
-           "decls_std": len(std["decls"]), "decls_alloc": len(alloc["decls"])}
+           "decls_std": len(std["decls"]), "decls_alloc": len(alloc["decls"]),
+           "roots_std": [gs.decls[i]["name"] for i in gs.roots], "roots_alloc": [ga.decls[i]["name"] for i in ga.roots]}
     if len(sys.argv) > 4:
         json.dump(rep, open(sys.argv[4], "w"), indent=1)
     sys.stderr.write(json.dumps({k: (v if not isinstance(v, (list, dict)) else len(v)) for k, v in rep.items()}) + "\n")
